@@ -2,10 +2,14 @@
    "needed" takes a concrete tree (wire format of Extract/C02.v) and answers
    [0, code, list of addresses, modelled, refs_written, list of reads], a read
    being [0, address] (RExact), [1, address, ...] (RWithin) or [2] (RNew);
-   or [1] when the model's parser rejects the token string. *)
+   or [1] when the model's parser rejects the token string.
+   "traces" takes a workbook and a history on the wire of Extract/C01.v and
+   answers, per operation, [value, [[reader, read], ...]]: the read trace of
+   Model/ReadTrace.v run_traced. *)
 From Coq Require Import ZArith List Bool String Extraction ExtrOcamlBasic.
 From PV Require Import Lib.Py Extract.Sx Model.Syntax Model.Emit Model.Scan.
 From PV Require Extract.C02.
+From PV Require Model.Graph Model.ReadTrace Extract.C01.
 Import ListNotations.
 Open Scope Z_scope.
 
@@ -34,8 +38,22 @@ Definition needed_entry (args : list sx) : sx :=
   | _ => bad_args
   end.
 
+Definition enc_pair (x : nat * nat) : sx := SL [SZ (Z.of_nat (fst x)); SZ (Z.of_nat (snd x))].
+Definition traces_entry (args : list sx) : sx :=
+  match args with
+  | [SL nodes; SL ops] =>
+      match C01.dec_list C01.dec_node nodes, C01.dec_list C01.dec_op ops with
+      | Some ns, Some os =>
+          let W := C01.mk_wb ns in
+          SL (map (fun vt : pyval * ReadTrace.rtrace => SL [enc_val (fst vt); SL (map enc_pair (snd vt))])
+                  (snd (ReadTrace.run_traced W (C01.mk_sem ns) (Graph.init W) os)))
+      | _, _ => bad_args
+      end
+  | _ => bad_args
+  end.
+
 Open Scope string_scope.
-Definition table : list entry := [ E "needed" needed_entry ].
+Definition table : list entry := [ E "needed" needed_entry; E "traces" traces_entry ].
 
 Definition dispatch (name : list Z) (args : list sx) : sx :=
   match lookup table name with
